@@ -154,8 +154,15 @@ impl<S: WebSocket, T: TimestampProvider> Task<S, T> {
                 (true, Ok(()))
             }
         };
-        self.wind_down(should_drain_frame_rx, tx_msg_rx, dropped_flows_rx)
-            .await;
+        // After an error (transport failure, invalid frame, keepalive timeout) the peer
+        // cannot be expected to finish the closing handshake, so do not wait for it.
+        self.wind_down(
+            should_drain_frame_rx,
+            res.is_ok(),
+            tx_msg_rx,
+            dropped_flows_rx,
+        )
+        .await;
         res
     }
 
@@ -293,6 +300,7 @@ impl<S: WebSocket, T: TimestampProvider> Task<S, T> {
     async fn wind_down(
         &self,
         should_drain_msg_rx: bool,
+        should_drain_source: bool,
         mut tx_msg_rx: mpsc::UnboundedReceiver<Message>,
         mut dropped_flows_rx: mpsc::UnboundedReceiver<u32>,
     ) {
@@ -338,7 +346,12 @@ impl<S: WebSocket, T: TimestampProvider> Task<S, T> {
         poll_fn(|cx| self.ws.lock().poll_close_unpin(cx)).await.ok();
         // The above line only closes the `Sink`. Before we terminate connections,
         // we dispatch the remaining frames in the `Source` to our streams.
-        while let Some(Ok(msg)) = poll_fn(|cx| self.ws.lock().poll_next_unpin(cx)).await {
+        // This waits for the peer to end the stream, so only do it if the connection
+        // is winding down in an orderly way; otherwise the peer may never answer.
+        while should_drain_source {
+            let Some(Ok(msg)) = poll_fn(|cx| self.ws.lock().poll_next_unpin(cx)).await else {
+                break;
+            };
             debug!("processing remaining message after closure {msg:?}");
             self.process_message(msg, true).await.ok();
         }
